@@ -2071,6 +2071,10 @@ func runCase(raw json.RawMessage) interface{} {
 			o = runBridgeStall(c)
 		case "bridge_startrace":
 			o = runBridgeStartRace(c)
+		case "mapping_window":
+			o = runMappingWindow(c)
+		case "copy_ctx_exit":
+			o = runCopyCtxExit(c)
 		case "mapping_live":
 			o = runMappingLive(c)
 		case "tunnel_reregister":
